@@ -51,6 +51,10 @@ class Timer:
         self.start_time = self.env.now
         self.timeout = timeout
         self.expire_time = self.start_time + timeout
+        if self.proc is self.env.active_process:
+            # called from the timer's own callback: run() is still looping and
+            # picks up the new expiry time; a process cannot interrupt itself
+            return
         if not self.proc.processed:
             self.proc.interrupt("restart timer")
             self.proc = self.env.process(self.run(self.env))
